@@ -12,7 +12,7 @@ open(p, 'w').write(s.replace(old, new, 1))
 try:
     for i in ids:
         r = subprocess.run(['./check', i, '--tier', os.environ.get('TIER', 'quick')], cwd='/verif', capture_output=True, text=True,
-                           env=dict(os.environ, PMC_REPO=wt, PMC_NO_RECHECK='1'))
+                           env=dict(os.environ, PMC_REPO=wt, PMC_NO_RECHECK='1', PMC_OUT='/tmp/pmc_out'))
         lines = r.stdout.strip().splitlines()
         nv = sum(1 for l in lines if l.startswith('VIOLATION'))
         sigs = [l.strip() for l in lines if l.strip().startswith('signature=')][:3]
